@@ -123,18 +123,25 @@ def rule_space(ctx, prop):
             f = prog.fn("stylua_lib", name)
             if not rep.anchor(f is not None, name, cfg):
                 continue
-            res = Enumerator(f).run()
+            holder = {}
+
+            def on_call(st, bi, t, holder=holder):
+                # the count handed to TokenType::spaces as known on *this* path (a `let spaces = match ..` local)
+                if callee(t).endswith("TokenType::spaces"):
+                    v = holder["en"].val_of(st, t["args"][0])
+                    st.hist.append((f"argval:{bi}", v[1] if v and v[0] == "const" else None))
+            en = Enumerator(f, on_call=on_call)
+            holder["en"] = en
+            res = en.run()
             for V, n in want.items():
                 got = set()
                 for st in res:
                     k = _key_like(st, ".space_after_function_names")
                     if not _cons_admits(st.disc.get(k) if k else None, V):
                         continue
-                    for bi, c, t in st.calls:
-                        if c.endswith("TokenType::spaces"):
-                            for r in provenance(f, t["args"][0], through=None):
-                                if r[0] == "const":
-                                    got.add(r[1])
+                    for hk, hv in st.hist:
+                        if isinstance(hk, str) and hk.startswith("argval:"):
+                            got.add(f"v:{hv}" if hv is not None else "dynamic")
                 ok = got == {f"v:{n}"}
                 rep.inst(f"{f.key} {V} -> spaces({n})", {"option": V, "spaces": sorted(got)}, cfg, ok=ok)
                 if not ok:
